@@ -22,6 +22,18 @@ theorem splitLines_ne_nil : ∀ (s : List Nat), Spec.splitLines s ≠ [] := by
   intro s
   fun_induction Spec.splitLines s <;> simp_all
 
+theorem replaceCRLF_cons (c : Nat) (rest : List Nat) (h : ¬ (c = 13 ∧ rest.head? = some 10)) :
+    replaceCRLF (c :: rest) = c :: replaceCRLF rest := by
+  conv => lhs; unfold replaceCRLF
+  split
+  · rename_i heq
+    simp only [List.cons.injEq] at heq
+    exact absurd ⟨heq.1, by rw [heq.2]; rfl⟩ h
+  · rename_i heq
+    simp only [List.cons.injEq] at heq
+    rw [heq.1, heq.2]
+  · rename_i heq; cases heq
+
 /-- Replacing CRLF, then CR, by LF and splitting at LF is splitting at line terminators. -/
 theorem split_eq (raw : List Nat) : splitLF (replaceCR (replaceCRLF raw)) = Spec.splitLines raw := by
   fun_induction Spec.splitLines raw with
@@ -31,29 +43,23 @@ theorem split_eq (raw : List Nat) : splitLF (replaceCR (replaceCRLF raw)) = Spec
     simp [splitLF, ih]
   | case3 c rest hnot hc ih =>
     have e : replaceCRLF (c :: rest) = c :: replaceCRLF rest := by
+      apply replaceCRLF_cons
+      rintro ⟨h1, h2⟩
       cases rest with
-      | nil => simp [replaceCRLF]
-      | cons d rest' =>
-        by_cases h1 : c = 13
-        · by_cases h2 : d = 10
-          · exact absurd rfl (hnot rest' (by rw [h1, h2]))
-          · subst h1; unfold replaceCRLF; split <;> simp_all
-        · unfold replaceCRLF; split <;> simp_all
+      | nil => simp at h2
+      | cons d r => simp at h2; exact hnot r h1 (by rw [h2])
     rw [e]
     simp only [replaceCR, List.map_cons] at ih ⊢
     rcases hc with hc | hc
     · subst hc; simp [splitLF, ih]
     · subst hc; simp [splitLF, ih]
   | case4 c rest hnot hc l ls hsp ih =>
-    have e : replaceCRLF (c :: rest) = c :: replaceCRLF rest := by
-      cases rest with
-      | nil => simp [replaceCRLF]
-      | cons d rest' =>
-        unfold replaceCRLF; split <;> simp_all
-    rw [e]
-    simp only [replaceCR, List.map_cons] at ih ⊢
     have h13 : c ≠ 13 := fun h => hc (.inl h)
     have h10 : c ≠ 10 := fun h => hc (.inr h)
+    have e : replaceCRLF (c :: rest) = c :: replaceCRLF rest :=
+      replaceCRLF_cons c rest (fun h => h13 h.1)
+    rw [e]
+    simp only [replaceCR, List.map_cons] at ih ⊢
     simp [splitLF, h13, h10, ih, hsp]
   | case5 c rest hnot hc hsp ih =>
     exact absurd hsp (splitLines_ne_nil rest)
@@ -135,14 +141,8 @@ theorem commonIndent_eq (lines : List (List Nat)) :
 /-! ### step 3: removing the indent -/
 
 theorem removeIndent_eq (lines : List (List Nat)) (ci : Option Nat) :
-    (match ci with
-      | some ci =>
-        if ci > 0 then
-          match lines with
-          | [] => []
-          | first :: more => first :: more.map fun line => if line.length ≥ ci then line.drop ci else []
-        else lines
-      | none => lines) = Spec.removeIndent ci lines := by
+    removeIndentLoop ci lines = Spec.removeIndent ci lines := by
+  unfold removeIndentLoop
   cases ci with
   | none => cases lines <;> rfl
   | some n =>
@@ -215,7 +215,7 @@ theorem stripLoop_eq : ∀ (fuel : Nat) (lines : List (List Nat)), lines.length 
           rw [List.reverse_append]
           simp only [List.reverse_cons, List.reverse_nil, List.nil_append, List.singleton_append,
             List.dropWhile_cons, hbl, Bool.false_eq_true, if_false]
-          rw [List.reverse_cons, List.reverse_reverse, hdl]
+          rw [List.reverse_reverse, hdl]
 
 /-! ### step 5: joining -/
 
